@@ -65,6 +65,18 @@ var frozenTable = map[string]string{
 func (l *ledger) scan(fn *ssa.Function) {
 	name := l.w.Name(fn)
 	gov, isGov := invariantGoverned[name]
+	// an extracted helper (one static call, used nowhere else) of an invariant-governed function is governed by the
+	// same invariant: its index operands are the caller's
+	for g, depth := fn, 0; !isGov && depth < 4; depth++ {
+		c := l.w.UniqueCall(g)
+		if c == nil {
+			break
+		}
+		g = c.Parent()
+		if why, ok := invariantGoverned[l.w.Name(g)]; ok {
+			gov, isGov = why+" (through its extracted helper)", true
+		}
+	}
 	var br *boundsResult
 	getBR := func() *boundsResult {
 		if br == nil {
